@@ -222,6 +222,8 @@ pub fn seq_campaigns(property: &str) -> Vec<SeqCampaign> {
         "C11" => vec![main("seq-bursts", 3000, 50_000, nt_c11, RULE_C11)],
         "C13" => vec![SeqCampaign { name: "seq-after-shutdown", params: profile("C05"), policy: Policy::default(), cases_quick: 1500, cases_thorough: 20_000, nt: |s| s.accepted_puts >= 1 && s.writes >= 3,
             rule: "generated histories; at the end shutdown() is called twice, then all six write entry points must return Err and all seven read variants must return absent / empty for every key the history wrote (and one it never wrote); non-trivial = the history had an accepted put and >= 3 writes before the shutdown" }],
+        "C15" => vec![SeqCampaign { name: "seq-access-accounting", params: profile("C02"), policy: Policy::default(), cases_quick: 3000, cases_thorough: 40_000, nt: |s| s.hits >= 5 && s.reads > s.hits,
+            rule: "generated read-heavy histories (all seven read variants, multi-key reads with duplicate and absent keys, pool 1-3, buffer 1-8) on one thread: after every op CacheHits == records buffered in the pool + AccessAdded + AccessDropped; non-trivial = >= 5 hits and at least one miss" }],
         "C16" => vec![main("seq-main", 3000, 60_000, nt_c16, RULE_C16)],
         "C17" => vec![
             main("seq-main", 4000, 80_000, nt_c17, RULE_C17),
